@@ -140,6 +140,33 @@ pub fn l1_cases() -> Vec<L1Case> {
             }
         }
     }
+    // every digit value of every radix before and after the point where the 64-bit accumulator
+    // overflows (the scanner continues in a second loop with its own digit and marker tests; in
+    // radix 16 the digit 'e' must not be taken for an exponent marker there)
+    for (prefix, radix) in [("", 10u32), ("#d", 10), ("#b", 2), ("#o", 8), ("#x", 16)] {
+        let digit = |v: u32, upper: bool| -> char {
+            let c = std::char::from_digit(v, radix).unwrap();
+            if upper { c.to_ascii_uppercase() } else { c }
+        };
+        for upper in [false, true] {
+            if upper && radix != 16 {
+                continue;
+            }
+            for len in [16usize, 17, 20, 22, 30, 64, 66, 70] {
+                for v in 0..radix {
+                    for sign in ["", "-"] {
+                        // 1 d d d ... d   and   1 0 0 ... 0 d   and a rotating string starting at d
+                        let a: String = std::iter::once('1').chain(std::iter::repeat(digit(v, upper)).take(len)).collect();
+                        let b: String = std::iter::once('1').chain(std::iter::repeat('0').take(len - 1)).chain(std::iter::once(digit(v, upper))).collect();
+                        let c: String = std::iter::once('1').chain((0..len as u32).map(|i| digit((v + i) % radix, upper))).collect();
+                        for d in [a, b, c] {
+                            out.push(L1Case { text: format!("{}{}{}", prefix, sign, d), lit: NumLit { neg: sign == "-", radix, int_digits: d.to_lowercase(), frac_digits: None, exp: None } });
+                        }
+                    }
+                }
+            }
+        }
+    }
     out
 }
 
